@@ -9,7 +9,9 @@ import susrender
 import vlib
 
 PID = "C13"
-THEOREMS = ['C13_is_loading_iff_pending', 'C13_is_loading_chain', 'C13_report_depends_on_pending_set']
+THEOREMS = ['C13_is_loading_iff_pending', 'C13_is_loading_chain', 'C13_report_depends_on_pending_set',
+            'C13r_blocking_returns_when_finished', 'C13r_blocking_never', 'C13r_blocking_content', 'C13r_stream_once', 'C13r_stream_parent_first',
+            'C13r_stream_script_never_fails', 'C13r_stream_live', 'C13r_stream_equals_blocking']
 
 
 def trees(rng, tier):
@@ -151,6 +153,15 @@ def main(argv):
     except RuntimeError as e:
         broken.append("model evaluation (Stream.v): " + str(e)[-500:])
         chk.obligation("model evaluation (Stream.v)", False, str(e))
+    if ok:
+        try:
+            hyp = vlib.coq_eval(PID + "h", susrender.PRE + "Require Syc.Async.StreamFacts.\n",
+                                ["Common.Show.show_nat (List.length (List.filter (fun vs => negb (Syc.Async.StreamFacts.uniq_idsb vs && Syc.Async.StreamFacts.no_top_asyncb vs)) %s))"
+                                 % vlib.glist([vlib.glist([susrender.cq(v) for v in susrender.model_view(vs)]) for vs, _ in rcases])])
+            chk.obligation("hypotheses of the streaming theorems (unique boundary ids, no async component outside the boundaries) hold for the %d generated views" % len(rcases),
+                           hyp == ["0"], "views outside the hypotheses: " + str(hyp))
+        except RuntimeError as e:
+            chk.obligation("hypotheses of the streaming theorems evaluated", False, str(e)[-800:])
     rmism = []
     for i, ((vs, sched), im) in enumerate(zip(rcases, rimpl)):
         obs = susrender.observe(*im)
